@@ -224,7 +224,7 @@ def run():
             packet = Packet(buf, float(ts))
 
             if ts == -1:
-                keylog.extend(keylog_reader.get_keys_from_string(buf.decode('ascii')))  # adds secrets from decryption secret block to keylog
+                keylog.extend(keylog_reader.get_keys_from_string(buf.decode('ascii', errors='replace')))  # adds secrets from decryption secret block to keylog
                 continue
 
             if packet.tcp_packet:
